@@ -46,6 +46,10 @@ class ConfigModels(CommonModels):
         if f.qualname == 'TorConfig._find_real_name' and self.find_real_name_contract:
             # contract (proved in C11/_find_real_name): the unique key of parsers/config equal to the
             # name up to case, else the name itself.  Units pass real names, for which it is the identity.
+            alias = path.heap.get(('g', 'real_name_alias'))
+            if alias is not None and isinstance(args[0], VStr) and args[0].t.eq(alias[0]):
+                # (a name that differs from the canonical one in case only: the canonical key, by the proved contract)
+                return [(path, VStr(alias[1]))]
             self.assumptions.add('option names handed to TorConfig internals in these units are already the real (canonical) names')
             return [(path, args[0])]
         if f.qualname == 'parse_keywords':
